@@ -15,6 +15,7 @@ import LogosModel.FastCheck
 import LogosModel.DriverLook
 import LogosModel.Emit
 import LogosModel.PassesAll
+import LogosModel.StateType
 import Std.Data.HashMap
 import LogosModel.Source
 import Std.Data.HashSet
@@ -91,6 +92,9 @@ structure Case where
   rawStates : Array StateData := #[]
   rawRoot : Nat := 0
   hasRaw : Bool := false
+  /-- leaves matching in each raw state (hook lines RMATCH) and the graph errors as dumped -/
+  rawMatches : Array (Nat × List Nat) := #[]
+  gerrs : Array (List Nat) := #[]
   /-- viability table of a definition with look-around (`none` = not computed yet) -/
   lookT : Option (Option (List LK.LEntry)) := none
   lookM : Std.HashMap (LK.VecL × LK.Cls) Bool := {}
@@ -383,6 +387,30 @@ def passesAnswer (c : Case) : String :=
     -- side conditions of `passes_matched` / `passes_nomatch` / `passes_eoi` on this raw graph
     s!"SAME {c.rawStates.size} {f.states.size} side={b (Passes.sideOK raw)}"
 
+def natListLt : List Nat → List Nat → Bool
+  | [], [] => false
+  | [], _ => true
+  | _, [] => false
+  | a :: as, b :: bs => a < b || (a == b && natListLt as bs)
+
+/-- "STYPE": `get_state_type` recomputed from the dumped match lists: every raw `accept`, and the list of
+`Disambiguation` errors (compared as sorted lists) -/
+def stypeAnswer (c : Case) : String :=
+  if c.nodump || !c.hasRaw then "NORAW" else
+  let prios := c.prios.toList
+  let tys := c.rawMatches.toList.map fun (s, ms) => (s, stateType prios ms)
+  let badAcc := tys.find? fun (s, ty) =>
+    let want := match ty with | .accept l => some l | _ => none
+    (c.rawStates.getD s {}).accept != want
+  match badAcc with
+  | some (s, ty) => s!"DIFF accept state={s} model={repr ty} code={(c.rawStates.getD s {}).accept}"
+  | none =>
+    let amb := (tys.filterMap fun (_, ty) => match ty with | .ambiguous ls => some ls | _ => none)
+    let ambSorted := amb.mergeSort (fun a b => !natListLt b a)
+    let code := (c.gerrs.toList.filterMap fun g => match g with | 2 :: ls => some ls | _ => none).mergeSort (fun a b => !natListLt b a)
+    if ambSorted == code then s!"SAME {tys.length} {amb.length}"
+    else s!"DIFF errors model={ambSorted} code={code}"
+
 def answer (c : Case) (q : List String) : String :=
   match q with
   | ["CERT"] => certVerdict c 200000
@@ -398,6 +426,7 @@ def answer (c : Case) (q : List String) : String :=
   | ["TIE"] => tieVerdict c
   | ["EMIT"] => emitAnswer c
   | ["PASSES"] => passesAnswer c
+  | ["STYPE"] => stypeAnswer c
   | ["EQUIV", i, j] => equivVerdict c i.toNat! j.toNat!
   | ["EQUIV", i, j, f] => equivVerdict c i.toNat! j.toNat! f.toNat!
   | ["MATCH", i, hex] => matchVerdict c i.toNat! (unhex hex)
@@ -561,7 +590,8 @@ partial def run (h : IO.FS.Stream) (out : IO.FS.Stream) (cur : Case) (tbl : Std.
   | "EDGE" :: s :: t :: _ :: rest =>
     let e : Edge := { ranges := pairsOf (rest.map String.toNat!), target := t.toNat! }
     run h out { cur with states := cur.states.modify s.toNat! fun sd => { sd with normal := sd.normal ++ [e] } } tbl
-  | "GERR" :: _ => run h out { cur with gerr := cur.gerr + 1 } tbl
+  | "GERR" :: rest => run h out { cur with gerr := cur.gerr + 1, gerrs := cur.gerrs.push (rest.map String.toNat!) } tbl
+  | "RMATCH" :: s :: rest => run h out { cur with rawMatches := cur.rawMatches.push (s.toNat!, rest.map String.toNat!) } tbl
   | "RAWDEF" :: _ :: r :: _ => run h out { cur with hasRaw := true, rawRoot := r.toNat! } tbl
   | "RSTATE" :: _ :: a :: eoi :: _ =>
     let sd : StateData := { accept := optOf (a.toInt?.getD 0), eoi := optOf (eoi.toInt?.getD 0) }
